@@ -607,6 +607,56 @@ def h_text(ctx, afi, kind, nops):
     return (line, r)
 
 
+ONE_LINE = {  # (keyword of `announce ipv4|ipv6 flow ...`, the component it stands for)
+    V4: (('destination-ipv4 192.0.2.0/24', ('prefix4', 1, 24, bytes([192, 0, 2, 0]))), ('source-ipv4 10.1.2.3/32', ('prefix4', 2, 32, bytes([10, 1, 2, 3]))),
+         ('protocol tcp', ('ops', 3, [(0, 1, 6)])), ('destination-port [ >=1024&<=2048 =8080 ]', ('ops', 5, [(0, 3, 1024), (1, 5, 2048), (0, 1, 8080)])),
+         ('packet-length >1200', ('ops', 10, [(0, 2, 1200)]))),
+    V6: (('destination-ipv6 2001:db8::/32', ('prefix6', 1, 32, 0, bytes.fromhex('20010db8') + bytes(12))), ('next-header udp', ('ops', 3, [(0, 1, 17)])),
+         ('source-port =53', ('ops', 6, [(0, 1, 53)])), ('packet-length >1200', ('ops', 10, [(0, 2, 1200)]))),
+}
+_ONE_LINE_CFG = []
+
+
+def one_line_configuration():
+    """A Configuration as API.api_announce_v4 uses it (`announce ipv4 flow ...` -> Configuration.partial('ipv4', 'flow ...'))."""
+    if not _ONE_LINE_CFG:
+        from exabgp.configuration.setup import create_minimal_configuration
+        flow_route_parser()
+        _ONE_LINE_CFG.append(create_minimal_configuration(families='ipv4 flow ipv6 flow ipv4 flow-vpn ipv6 flow-vpn'))
+    return _ONE_LINE_CFG[0]
+
+
+def h_text_one_line(ctx, afi):
+    """The OTHER text entry point: `announce ipv4|ipv6 flow[-vpn] <keywords> <action>` on one line (route builder /
+    Flow.from_settings, not flow.add()).  The keywords are written in a solver-chosen order (every permutation of 3 out of
+    the table); the wire is the RFC encoding of the same rule: components in ascending type order, each once."""
+    import itertools
+    table = ONE_LINE[afi]
+    perms = list(itertools.permutations(range(len(table)), 3))
+    perm = perms[ctx.choice('order', len(perms))]
+    vpn = bool(ctx.choice('vpn', 2))
+    words = ' '.join(table[i][0] for i in perm)
+    line = ('flow-vpn rd 65000:1 ' if vpn else 'flow ') + words + ' discard'
+    cfg = one_line_configuration()
+    cfg.static.clear()
+    cfg.flow.clear()
+    ok = cfg.partial('ipv4' if afi == V4 else 'ipv6', line, 'announce')
+    if not ctx.check('accepted', bool(ok), sig='C16:text:one-line:refused', info={'line': line, 'error': str(cfg.error)[-200:]}):
+        return (line, 'refused')
+    cfg.scope.to_context()
+    routes = cfg.scope.pop_routes()
+    if not ctx.check('one-route', len(routes) == 1, sig='C16:text:one-line:route-count', info={'line': line, 'routes': len(routes)}):
+        return (line, 'routes')
+    ctx.cover('parsed')
+    ctx.cover('vpn' if vpn else 'plain')
+    if list(perm) != sorted(perm):
+        ctx.cover('keywords-out-of-type-order')
+    intended = [table[i][1] for i in perm]
+    rd = bytes([0, 0]) + (65000).to_bytes(2, 'big') + (1).to_bytes(4, 'big') if vpn else None
+    r = encode_obligations(ctx, afi, vpn, routes[0].nlri, intended, ['one-line'], rd=rd)
+    return (line, r)
+
+
 def _action_cases():
     cases = (
         ('discard', O.action_traffic_rate_bytes(0, _struct.pack('!f', 0.0))),
@@ -813,6 +863,7 @@ def units(tier):
         us.append(Unit('text/%s/numeric' % name, lambda ctx, a=afi: h_text(ctx, a, 'numeric', 3 if th else 2),
                        must_cover=('parsed', 'bracket', 'bare', 'and', 'prefix', 'width-1', 'width-2') + tuple('spell:' + sp for sp, _ in NUM_SPELL) + tuple('comp:' + c for c in TEXT_COMPS[afi]),
                        weight=3000 if th else 500, max_seconds=T, max_paths=400000))
+        us.append(Unit('text/%s/one-line' % name, lambda ctx, a=afi: h_text_one_line(ctx, a), must_cover=('parsed', 'vpn', 'plain', 'keywords-out-of-type-order'), weight=10))
         us.append(Unit('text/%s/bitmask' % name, lambda ctx, a=afi: h_text(ctx, a, 'bitmask', 3 if th else 2),
                        must_cover=('parsed', 'bracket', 'bare', 'and', 'prefix', 'width-1', 'comp:tcp-flags', 'comp:fragment') + tuple('spell:' + sp for sp, _ in BIN_SPELL),
                        weight=1000 if th else 200, max_seconds=T, max_paths=400000))
